@@ -4,7 +4,7 @@ LIST_KINDS = {"aggregate", "annotation", "label", "reject", "link", "name"}
 SUBS = {"aggregate": [1, 2, 3], "cost": [0, 1, 3], "annotation": [0, 5, 15], "label": [0, 5, 15], "alerts": [0, 1], "reject": [0, 1, 2, 4, 8, 15],
         "link": [0, 3], "for": [1, 2, 3], "keep_firing_for": [1, 2, 3], "name": [0], "range_query": [0], "report": [0]}
 ALL = (1 << len(KINDS)) - 1
-ALGS = {0: "disabled", 1: "enabled", 2: "ruledisable", 3: "offline", 4: "clidisabled"}
+ALGS = {0: "disabled", 1: "enabled", 2: "ruledisable", 3: "offline", 4: "clidisabled", 5: "clienabled"}
 STATES = {0: "unmodified", 1: "added", 2: "modified", 3: "removed", 4: "renamed"}
 
 
@@ -52,6 +52,8 @@ def jobs(tier):
         out += A("none", 0, alg, 1, 0, 0, parts=(4 if alg == 4 else 1))
         out += A("all", ALL, alg, 1, 15, 1, parts=(8 if alg == 4 else 4))
         if tier == "thorough":
+            if alg == 0:
+                out += A("range_query", 1 << KINDS.index("range_query"), alg, 1, 16, 1)  # max = "" (side finding S1)
             out += A("all", ALL, alg, 2, 15, 1, parts=8)
             out += A("all", ALL, alg, 1, 15, 0, parts=8)
             for st in (1, 2, 3, 4):
